@@ -227,6 +227,10 @@ def model_expr(w):
             labs.append("ExitTold %d" % l[1])
         elif k == "S" and l[1] == SIG["HUP"]:
             labs.append("Hup")
+        elif k == "S" and l[1] == TTIN:
+            labs.append("Ttin")
+        elif k == "S" and l[1] == TTOU:
+            labs.append("Ttou")
         elif k == "E":
             dw = l[1]
             labs.append("Edit %d %d" % (dw, da))
@@ -280,7 +284,11 @@ def judge(case, w):
         if stale:
             fails.append(("after the reloads and after every told worker has gone, workers %r still run an old configuration (current is #%d)"
                           % (stale, cur), key))
-        if len(ws) != int(a.cfg.workers) or len(ws) != int(a.num_workers):
+        # the newly configured number - unless TTIN / TTOU arrived after the last HUP (num_workers then moves away from it)
+        sigs = [l[1] for l in w.resolved if l[0] == "S"]
+        last_hup = max(i for i, sg in enumerate(sigs) if sg == SIG["HUP"]) if SIG["HUP"] in sigs else -1
+        resized_after = any(sg in (TTIN, TTOU) for sg in sigs[last_hup + 1:])
+        if not resized_after and (len(ws) != int(a.cfg.workers) or len(ws) != int(a.num_workers)):
             fails.append(("after the reloads the pool has %d workers; cfg.workers = %d, num_workers = %d" % (len(ws), a.cfg.workers, a.num_workers), key))
     return fails
 
@@ -328,6 +336,11 @@ def fixed_cases():
                     sc += [("S", sg)] + [M] * 14 + [("XTk", 0), ("C",)] + [M] * 8
                 sc += [("START",)] + [M] * 4 + edit + [("S", SIG["HUP"])] + [M] * 40
                 cs.append({"cfg": {"workers": nw, "bind": 0}, "kind": "resized", "prelude": True, "tail_loops": 10, "script": sc})
+    # TTIN / TTOU at every point of a reload and after it (Proof/ReloadSafe.v: the unretired workers are the new generation)
+    for i in (0, 3, 6, 9, 12, 16, 22):
+        for sg in (TTIN, TTOU):
+            cs.append({"cfg": {"workers": 2, "bind": 0}, "kind": "resize-during", "tail_loops": 12,
+                       "script": boot + [("S", SIG["HUP"])] + [M] * i + [("S", sg)] + [M] * 30 + [("S", sg), ("S", SIG["HUP"])] + [M] * 40})
     # a NEW worker dies inside the reload window (not in the property's quantifier: side finding)
     for i in range(4, 12):
         cs.append({"cfg": {"workers": 2, "bind": 0}, "kind": "window-death", "crashes": True,
@@ -358,6 +371,8 @@ def gen_random(rng):
                 script += [M] * rng.choice([0, 0, 1, 2]) + [("C",)]
         elif x < 0.7:
             script.append(("C",))
+        elif x >= 0.9:
+            script.append(("S", rng.choice([TTIN, TTOU])))       # anywhere: before, between, after the reloads
         elif x < 0.76:
             script.append(("Xk", rng.randrange(5), rng.choice([0, 9, 15, 256])))
             crashes = True
